@@ -217,3 +217,33 @@ PROPS["C03"] = {
     "assumptions": COMMON_ASSUME + ["the IR generator only emits definitions the Conjure compiler accepts (DESIGN.md Appendix A); doubtful shapes are left out",
                                    "rustc + the runtime crates of the working tree are the judge of 'compiles'"],
 }
+
+LAB_ASSUME = COMMON_ASSUME + [
+    "the wire model (irgen/wire.py) is written from the Conjure wire specification / the property text and is checked for self-consistency",
+    "the IR generator only emits definitions the Conjure compiler accepts (DESIGN.md Appendix A)",
+    "documents the property leaves open (positional arrays, null collections, duplicate members, 1.0 for an integer) are not generated",
+]
+
+PROPS["C02"] = {
+    "stages": [labchecks.wire_stage], "engine": "lab",
+    "technique": "runtime monitoring of generated code: random definitions -> real generator -> rustc -> lab binary deserializes model-generated documents (canonical, "
+                 "legal non-canonical spellings, single-fault invalid) with the client and server deserializers and re-serializes; verdicts and canonical output compared "
+                 "with an independent Python model of the wire format",
+    "level": "exploration",
+    "level_text": "Held on every generated type x document: valid documents were accepted by both deserializers and re-serialized to the canonical form (exact member sets, "
+                  "encodings), single-fault documents were rejected, parsing was deterministic and stable under JSON and Smile re-encoding.",
+    "rule": "3 (quick) / 12 (thorough) labs of 40-60 random types x 6-20 values x (canonical + non-canonical + up to 4 fault classes); distinct = (type shape, case class, configuration)",
+    "assumptions": LAB_ASSUME,
+}
+
+PROPS["C10"] = {
+    "stages": [labchecks.wire_stage], "engine": "lab",
+    "technique": "runtime monitoring of generated code: unlisted well-formed enum names and unlisted union variants with arbitrary JSON payloads (both member orders) and every "
+                 "listed value, through client and server deserializers of the same definition built exhaustive and non-exhaustive; round-trip equivalence + unknown-classification oracle",
+    "level": "exploration",
+    "level_text": "Held on every enum/union of the random definitions: non-exhaustive builds accepted unlisted values, exposed them as unknown and re-serialized them equivalently "
+                  "while listed values were never classified unknown; exhaustive builds rejected exactly the unlisted ones.",
+    "rule": "every enum and union of the C02 labs x (listed values, ~8 unlisted names / variants with random payloads) plus the regular valid/invalid documents of those types; "
+            "distinct = (type shape, case class, configuration)",
+    "assumptions": LAB_ASSUME + ["unknown-ness is observed through the Debug rendering of the parsed value (variant name Unknown...)"],
+}
